@@ -27,7 +27,7 @@ THOROUGH = dict(QUICK, PtsN="{0, 1, 2, 3, 4}", ImgN="{0, 1, 2, 3}", CamN="{0, 1,
                 CamStarts="{0, 1, 2, 3, 4, 5, 6, 7, 8, 9, 10}", SfmPts="{0, 1, 2, 3}",
                 Styles='{"min", "pretty", "exp"}', UniverseId="2", Scales="{1, 64, 1024, 65536}")
 
-INVARIANTS = "Emit TilesInv PrefixClosed StrictLaw HierLaw OctLaw Budget"
+INVARIANTS = "Emit TilesInv PrefixClosed StrictLaw HierLaw OctLaw RecLaw Budget"
 FORMATS = ("cpts", "cimg", "ccam", "osfm", "pmeta", "phier", "pnode")
 
 
@@ -156,9 +156,25 @@ def account(ctx, raw):
             ctx.extra["node_prefix_errors_judged"] = ctx.extra.get("node_prefix_errors_judged", 0) + 1
 
 
+def design_checks(ctx):
+    """Design level: the count-driven record loop over a reader that decodes its scratch buffer after a short read."""
+    d = ctx.scratch("design")
+    r = core.run_tlc(d, "CountReader", "CountReaderRepaired.cfg", workers=2, timeout=600)
+    ctx.add_tlc(r)
+    if r.rc != 0:
+        raise core.Infra("CountReader with zero-on-short-read violates %s: model bug" % r.violated)
+    ctx.extra["design_repaired_reader_states"] = r.distinct
+    r = core.run_tlc(d, "CountReader", "CountReaderPinned.cfg", workers=1, timeout=600)
+    ctx.add_tlc(r)
+    ctx.extra["design_stale_buffer_count_panics"] = (r.rc == 12 and r.violated == "NoPanic")
+    if not ctx.extra["design_stale_buffer_count_panics"]:
+        raise core.Infra("CountReader as implemented satisfies NoPanic: the model lost its teeth")
+
+
 def run(ctx):
     quick = ctx.tier == "quick"
     vh = core.build_vh()
+    design_checks(ctx)
     # generator + design-level laws of the layouts
     d = ctx.scratch("gen")
     gen_cfg(os.path.join(d, "Gen.cfg"), QUICK if quick else THOROUGH)
